@@ -8,3 +8,6 @@ INVARIANT OrderMinimal
 INVARIANT ExtAnywhere
 CHECK_DEADLOCK FALSE
 INVARIANT BigConsistent
+INVARIANT InterleaveNeutral
+INVARIANT OddWsRejected
+CONSTANT Thorough = FALSE
